@@ -198,13 +198,16 @@ Proof. vm_compute. repeat split; try reflexivity. discriminate. Qed.
 
 Example C12_ex_v4 :
   let e := mkExts4 (Some (mkAuth 0 1 2 1 [1; 2; 3; 4])) in
-  exts4_valid e = true /\
+  exts4_valid e = true /\ is_ext_number_v4 0 = false /\
   set_next_headers4 e 6 = (mkExts4 (Some (mkAuth 6 1 2 1 [1; 2; 3; 4])), 51) /\
   next_header4 e 51 = Ok 0 /\ next_header4 e 6 = Err (ExtNotReferenced 51) /\
   from_slice4 51 (fst (write4 e 51)) = Ok (e, 0, []).
 Proof. vm_compute. repeat split; reflexivity. Qed.
 
 Example C12_ex_ether :
+  ip_is_ext (Ipv6 59 ex_all) 17 = false /\
+  ip_next_header (fst (ip_set_next_headers (Ipv6 59 ex_all) 17)) = Ok 17 /\
+  ip_next_header (Ipv6 59 ex_all) = Err (Ipv6Exts (ExtNotReferenced 0)) /\
   snd (ip_set_next_headers (Ipv6 59 ex_all) 17) = 34525 /\
   snd (ip_set_next_headers (Ipv4 0 0 (mkExts4 None)) 17) = 2048.
-Proof. vm_compute. split; reflexivity. Qed.
+Proof. vm_compute. repeat split; reflexivity. Qed.
